@@ -129,7 +129,9 @@ class ComparamInstance:
             return None
 
         result = value_list[idx]
-        if result is None and isinstance(subparam, (Comparam, ComplexComparam)):
+        if not result and isinstance(subparam, (Comparam, ComplexComparam)):
+            # sub-values which have been left empty in the XML are
+            # empty strings, not None
             result = subparam.physical_default_value
         if not isinstance(result, str):
             odxraise()
